@@ -364,6 +364,10 @@ class AbstractEval:
                 self.assign(s.target, self.ev(s.value, env), env)
         elif isinstance(s, ast.Pass):
             return
+        elif isinstance(s, ast.Continue):
+            raise _Return(("continue",))
+        elif isinstance(s, ast.Break):
+            raise _Return(("break",))
         elif isinstance(s, ast.Try):
             try:
                 self.block(s.body, env)
@@ -396,6 +400,9 @@ class AbstractEval:
         elif isinstance(t, (ast.Tuple, ast.List)) and isinstance(v, tuple) and len(v) == len(t.elts):
             for tt, vv in zip(t.elts, v):
                 self.assign(tt, vv, env)
+        elif isinstance(t, (ast.Tuple, ast.List)) and isinstance(v, (Sym, App)):
+            for i, tt in enumerate(t.elts):
+                self.assign(tt, App("item", (v, i)), env)
         elif isinstance(t, ast.Attribute):
             self.calls.append(App("setattr", (self.ev(t.value, env), t.attr, v)))
         elif isinstance(t, ast.Subscript):
@@ -452,6 +459,50 @@ def explore(
                 raise AnalysisError(f"dtable: more than {max_paths} paths in {fn.qual}")
         except NeedAtom as na:
             for c in reversed(choices(na.atom)):
+                v2 = dict(val)
+                v2[na.atom] = c
+                stack.append(v2)
+    return out
+
+
+def explore_block(
+    prog: Program,
+    fn: FuncInfo,
+    stmts: List[ast.stmt],
+    env: Dict[str, Any],
+    preset: Optional[Dict[Tuple, Any]] = None,
+    inline: Optional[Callable[[str], bool]] = None,
+    type_of: Optional[Dict[str, str]] = None,
+    globals_: Optional[Dict[str, Any]] = None,
+    funcs: Optional[Dict[str, Callable]] = None,
+    const_attrs: Optional[Dict[str, Any]] = None,
+    max_paths: int = 2000,
+):
+    """Like explore(), for a block of statements of `fn` (e.g. one loop body) under a given
+    environment; falling off the end is outcome ('fallthrough',)."""
+    out = []
+    stack = [dict(preset or {})]
+    while stack:
+        val = stack.pop()
+        ae = AbstractEval(prog, val, inline=inline, const_attrs=const_attrs)
+        ae.globals = dict(globals_ or {})
+        ae.funcs = dict(funcs or {})
+        ae.cur.append(fn)
+        for p_, t_ in (type_of or {}).items():
+            ae.type_of[p_] = t_
+        try:
+            try:
+                ae.block(stmts, dict(env))
+                outcome = ("fallthrough",)
+            except _Return as r_:
+                outcome = ("return", r_.value)
+            except _Raise as x:
+                outcome = ("raise", x.exc.split(".")[-1], x.args_)
+            out.append((val, outcome, ae.calls))
+            if len(out) > max_paths:
+                raise AnalysisError(f"dtable: more than {max_paths} paths in a block of {fn.qual}")
+        except NeedAtom as na:
+            for c in ([-1, 0, 1] if na.atom[0] == "ord" else [True, False]):
                 v2 = dict(val)
                 v2[na.atom] = c
                 stack.append(v2)
